@@ -44,6 +44,12 @@ func (w *c07World) handler(reg int64) network.StreamHandler {
 		s.SetReadDeadline(time.Time{})
 		w.mu.Lock()
 		w.invs = append(w.invs, c07Inv{reg, lp, nonce})
+		if nonce == c07Requestless && w.closeRequestless {
+			// the dialer closed the stream as its very first operation: nothing to hold
+			w.mu.Unlock()
+			s.Close()
+			return
+		}
 		w.heldL[nonce] = s
 		w.mu.Unlock()
 		var e [16]byte
@@ -112,10 +118,12 @@ const (
 	fopCloseWriteRead     = 4 // nothing to send: CloseWrite first, then read the answer
 	fopWriteCloseWriteRd  = 5
 	fopCloseReadWrite     = 6 // not interested in the answer: CloseRead first, then Write
-	c07NumFops            = 7
+	fopClose              = 7 // a payload-less notification: Close is the first and only operation
+	c07NumFops            = 8
 )
 
 type c07Open struct {
+	closed              bool // obtained and closed again at once (fopClose)
 	res, dp, use, h, lp int64
 	nonce               int64
 	s                   network.Stream
@@ -128,7 +136,7 @@ func (w *c07World) open(out *verifh.Out, reqs []int64, nonce int64, first byte, 
 	for i, r := range reqs {
 		pids[i] = c07Names[r]
 	}
-	ctx, cancel := context.WithTimeout(context.Background(), 10*time.Second)
+	ctx, cancel := context.WithTimeout(context.Background(), 4*time.Second)
 	defer cancel()
 	if allow {
 		ctx = network.WithAllowLimitedConn(ctx, "c07")
@@ -140,6 +148,11 @@ func (w *c07World) open(out *verifh.Out, reqs []int64, nonce int64, first byte, 
 	}
 	s, err := w.d.NewStream(ctx, w.l.ID(), pids...)
 	if err != nil {
+		if errors.Is(err, context.DeadlineExceeded) && !(w.limited && !allow) {
+			w.mu.Lock()
+			w.timeouts++
+			w.mu.Unlock()
+		}
 		switch {
 		case w.limited && !allow:
 			o.res = 5
@@ -164,6 +177,36 @@ func (w *c07World) open(out *verifh.Out, reqs []int64, nonce int64, first byte, 
 		return o
 	}
 	o.dp = c07Pid(s.Protocol())
+	if fop == fopClose {
+		// the observable is on the listener: the handler registered for the
+		// protocol runs (and finds the stream at EOF)
+		w.mu.Lock()
+		w.closeRequestless = true
+		w.mu.Unlock()
+		s.Close()
+		out.Cover("use.first_ops.close")
+		deadline := time.Now().Add(3 * time.Second)
+		for o.use != 1 && time.Now().Before(deadline) {
+			w.mu.Lock()
+			for _, v := range w.invs {
+				if v.nonce == c07Requestless {
+					o.use, o.h, o.lp, o.closed = 1, v.reg, v.lp, true
+				}
+			}
+			w.mu.Unlock()
+			if o.use != 1 {
+				time.Sleep(200 * time.Microsecond)
+			}
+		}
+		w.mu.Lock()
+		w.closeRequestless = false
+		if o.use != 1 {
+			o.use = 0
+			w.closeFails++
+		}
+		w.mu.Unlock()
+		return o
+	}
 	var buf [9]byte
 	buf[0] = first
 	binary.BigEndian.PutUint64(buf[1:], uint64(nonce))
@@ -285,7 +328,7 @@ func (w *c07World) firstOps(out *verifh.Out, s network.Stream, fop int64, payloa
 		s.SetDeadline(time.Time{})
 	}
 	out.Cover("use.first_ops." + []string{"write_read", "read_write", "deadline_read_write", "deadline_write_read",
-		"closewrite_read", "write_closewrite_read", "closeread_write"}[fop])
+		"closewrite_read", "write_closewrite_read", "closeread_write", "close"}[fop])
 	return
 }
 
@@ -480,8 +523,12 @@ func (r *c07Run) batch(reqs [][]int64, modes []int64, rnd *verifh.Rand) {
 	}
 	wg.Wait()
 	dead := map[int64]bool{c07Requestless: true}
+	var closedSlots []int64
 	for i := range obs {
-		if obs[i].use == 1 {
+		if obs[i].use == 1 && obs[i].closed {
+			closedSlots = append(closedSlots, r.nslot)
+			r.nslot++
+		} else if obs[i].use == 1 {
 			r.slots[r.nslot] = c07Slot{d: obs[i].s, nonce: nonces[i]}
 			r.nslot++
 		} else {
@@ -502,7 +549,7 @@ func (r *c07Run) batch(reqs [][]int64, modes []int64, rnd *verifh.Rand) {
 	for i := range obs {
 		var ninv, hreg, hlp int64 = 0, -1, -1
 		for _, v := range invs {
-			if v.nonce == nonces[i] || (n == 1 && v.nonce == c07Requestless && (modes[i]>>2)%c07NumFops == fopCloseWriteRead) {
+			if v.nonce == nonces[i] || (n == 1 && v.nonce == c07Requestless && c07IsRequestless(modes[i])) {
 				if ninv == 0 {
 					hreg, hlp = v.reg, v.lp
 				}
@@ -512,7 +559,7 @@ func (r *c07Run) batch(reqs [][]int64, modes []int64, rnd *verifh.Rand) {
 		r.line = append(r.line, obs[i].res, obs[i].dp, obs[i].use, obs[i].h, obs[i].lp, ninv, hreg, hlp)
 	}
 	for _, v := range invs {
-		known := n == 1 && v.nonce == c07Requestless && (modes[0]>>2)%c07NumFops == fopCloseWriteRead
+		known := n == 1 && v.nonce == c07Requestless && c07IsRequestless(modes[0])
 		for _, x := range nonces {
 			known = known || v.nonce == x
 		}
@@ -529,4 +576,14 @@ func (r *c07Run) batch(reqs [][]int64, modes []int64, rnd *verifh.Rand) {
 	r.lastKnow = append([]int64{}, ko[1:]...)
 	r.line = append(r.line, ko...)
 	r.line = append(r.line, w.scopeObs()...)
+	// a stream closed as its first operation is gone on both ends already
+	for _, sl := range closedSlots {
+		r.line = append(r.line, 6, sl, 0)
+		r.line = append(r.line, w.scopeObs()...)
+	}
+}
+
+func c07IsRequestless(mode int64) bool {
+	f := (mode >> 2) % c07NumFops
+	return f == fopCloseWriteRead || f == fopClose
 }
